@@ -113,14 +113,18 @@ def run_main(mod_main, argv):
     old = sys.argv
     sys.argv = argv
     code = None
+    # (and the environment of an operator's shell: terminal size exported, another locale)
+    oe = env.odd_environ(vary, 0.2) if vary is not None else contextlib.nullcontext()
     try:
-        with contextlib.redirect_stdout(buf):
+        with oe, contextlib.redirect_stdout(buf):
             try:
                 mod_main()
             except SystemExit as e:
                 code = e.code
     finally:
         sys.argv = old
+    if getattr(oe, "vars", None):
+        run_main.odd_env_runs = getattr(run_main, "odd_env_runs", 0) + 1
     return code, buf.getvalue()
 
 
@@ -335,8 +339,20 @@ def run_case_(acc, cseed, tmpdir, state):
     generated = []
     orig_generate = ecdsa.SigningKey.generate
 
+    # one run in eight: the fresh key happens to have a public point one of whose
+    # coordinates begins with a zero byte (one key in 128 does) - the library's generator
+    # is simply asked again until it yields such a key
+    zero_edge = rng.random() < 1 / 8
+
     def recording_generate(*a, **kw):
         k = orig_generate(*a, **kw)
+        if zero_edge:
+            for _ in range(1500):
+                xy = k.get_verifying_key().to_string()
+                if xy[0] == 0 or xy[32] == 0:
+                    acc.count("one_time_keys_with_a_zero_leading_coordinate_byte")
+                    break
+                k = orig_generate(*a, **kw)
         generated.append(k)
         return k
     ecdsa.SigningKey.generate = recording_generate
@@ -444,6 +460,10 @@ def run_shard(spec, acc):
     try:
         for i in range(spec["n"]):
             run_case(acc, rng.getrandbits(48), tmpdir, state)
+            n_ = getattr(run_main, "odd_env_runs", 0)
+            if n_:
+                acc.count("tool_runs_with_terminal_or_locale_variables_exported", n_)
+                run_main.odd_env_runs = 0
             for f in os.listdir(tmpdir):
                 f = os.path.join(tmpdir, f)
                 if os.path.isdir(f):
